@@ -100,7 +100,7 @@ def gen_history(r, cats, length):
                 pool.append(dst) if len(pool) < 14 else None
                 nxt += 1
         elif k < 0.36:
-            ops.append(("pow", None, ("slot", r.choice(scal + quants)), r.randint(1, 4)))
+            ops.append(("pow", None, ("slot", r.choice(scal + quants)), r.choice([1, 2, 3, 4, -1, -2, -3, 0, -1, 2])))
         elif k < 0.46:
             s = r.choice(scal + arrs)
             ops.append(("getvalue", s, unit(r.choice(qts))))
@@ -496,6 +496,23 @@ def constructor_forms(ctx):
         captioned = [("CreateDerived({}, caption)", lambda: Quantity.CreateDerived(OrderedDict(), "no unit, but a caption")), ("ObtainQuantity({}, None, caption)", lambda: ObtainQuantity(OrderedDict(), None, "no unit, but a caption")),
                      ("Quantity({}, None, caption)", lambda: Quantity(OrderedDict(), None, "no unit, but a caption"))]  # fmt: skip
         groups.append(("no unit", "", empties))
+        # one composition requested with its factors in either order, as an OrderedDict and as a plain dict (which the library may
+        # refuse): whatever is handed out, equal quantities are one value - same hash, same composing categories, same unit
+        for first, second in ((("length", ["m", 1]), ("time", ["s", -1])), (("mass", ["lbm", 1]), ("volume", ["bbl", -1])), (("time", ["wk", 2]), ("length", ["mi", 1]))):
+            got = []
+            for oname, items in (("as given", (first, second)), ("swapped", (second, first))):
+                for mname, mk in (("dict", dict), ("OrderedDict", OrderedDict)):  # (the plain dict first: nothing is interned for it yet)
+                    ctx.ev()
+                    try:
+                        got.append(("%s %s" % (mname, oname), ObtainQuantity(mk((c_, list(ue)) for c_, ue in items))))
+                    except Exception:
+                        ctx.count("compositions refused as a plain dict" if mname == "dict" else "compositions refused as an OrderedDict")
+            for (na, a), (nb, b) in itertools.combinations(got, 2):
+                ctx.ev()
+                ctx.nt(("composition orders", first[0], second[0], na, nb))
+                if (a == b) != (b == a) or (a == b and (hash(a) != hash(b) or a.GetComposingCategories() != b.GetComposingCategories() or a.GetUnit() != b.GetUnit() or a != b or len({a, b}) != 1)):
+                    ctx.violation("constructor-forms:equal-quantities-are-not-one-value", {"a": na, "b": nb, "repr": [repr(a), repr(b)], "composing_categories": [repr(a.GetComposingCategories()), repr(b.GetComposingCategories())],
+                                                                                            "hashes_equal": hash(a) == hash(b)}, replay={"constructor_forms": True})  # fmt: skip
         groups.append(("no unit, captioned", "no unit, but a caption", captioned))
         built = {}
         for gname, cap, forms in groups:
